@@ -442,6 +442,21 @@ fn segments() -> Vec<(&'static str, &'static str)> {
         ("{o}", "string(o)"),
         ("{i / z}", "string(i / z)"),
         ("{unbound}", "string(unbound)"),
+        // embedded compile-time constants of every type (folded by the compiler)
+        ("{7 - 14}", "string(7 - 14)"),
+        ("{18446744073709551615u}", "string(18446744073709551615u)"),
+        ("{0.1}", "string(0.1)"),
+        ("{'q'}", "string('q')"),
+        ("{b'hi'}", "string(b'hi')"),
+        ("{bytes('hé')}", "string(bytes('hé'))"),
+        ("{timestamp(1700000000)}", "string(timestamp(1700000000))"),
+        ("{duration(90, 0)}", "string(duration(90, 0))"),
+        ("{duration('1h30m')}", "string(duration('1h30m'))"),
+        ("{[1]}", "string([1])"),
+        ("{null}", "string(null)"),
+        ("{true}", "string(true)"),
+        ("{1 / 0}", "string(1 / 0)"),
+        ("{int}", "string(int)"),
     ]
 }
 
@@ -533,7 +548,8 @@ pub fn replay_families(t: Tier) -> Vec<Family<'static>> {
 
 pub fn run(t: Tier) -> i32 {
     let mut rep = Report::new(ID, t, "exploration");
-    rep.rule = "conversions: every value of the numeric boundary grid, a string grid (decimal and exponent renderings of every grid number, signs, blanks, separators, non-ASCII digits, out-of-range digit strings, bool literals, timestamps, durations), bytes (valid and invalid UTF-8), and one value of every other type x the 10 constructors, bound and literal, against the reference conversion (Unspecified where the property does not fix the answer) plus type(T(x)) == T; roundtrips: int(string(i))==i, uint(string(u))==u, double(string(d))==d over the dense grids and all exponents, string(bytes(s))==s, evaluated inside CEL; fstrings: all sequences of 1..N segments over 20 segment kinds x both quotes compared with the concatenation of literal parts and string(e) evaluated by the implementation. Non-trivial = outcome fixed by the property; distinct by index".to_string();
+    rep.rule = "conversions: every value of the numeric boundary grid, a string grid (decimal and exponent renderings of every grid number, signs, blanks, separators, non-ASCII digits, out-of-range digit strings, bool literals, timestamps, durations), bytes (valid and invalid UTF-8), and one value of every other type x the 10 constructors, bound and literal, against the reference conversion (Unspecified where the property does not fix the answer) plus type(T(x)) == T; roundtrips: int(string(i))==i, uint(string(u))==u, double(string(d))==d over the dense grids and all exponents, string(bytes(s))==s, evaluated inside CEL; fstrings: all sequences of 1..N segments over 34 segment kinds (literal text, doubled braces, quotes, embedded variables and embedded compile-time constants of every type)
+ x both quotes compared with the concatenation of literal parts and string(e) evaluated by the implementation. Non-trivial = outcome fixed by the property; distinct by index".to_string();
     for f in replay_families(t) {
         rep.run_family(f);
     }
